@@ -249,11 +249,17 @@ impl Property for C01 {
                 let name = info.name.to_string();
                 let xs = prop_oneof![
                     2 => prop::sample::select(vec![0u32, 1, 2, 21, 7656, 7657, 0xFFFF, 0x10000, 0x7FFFFFFF, 0x80000000, 0xFFFFFFFF]),
+                    // curve constants that the library multiplies by (A24 of X25519 / X448, Edwards d, jq255 / decaf constants, ...)
+                    1 => prop::sample::select(vec![3u32, 7, 11, 77, 343, 19, 38, 977, 39081, 39082, 121665, 121666, 156326, 486662, 8191, 8192, 65535]),
                     1 => any::<u32>(),
                 ];
+                // 1 case in 5: the first operand sits on the carry boundaries of the multiplication by x
+                let carry = prop_oneof![4 => Just(None), 1 => (prop::collection::vec(any::<u32>(), 9), prop::collection::vec(any::<u8>(), 9), 0u8..3).prop_map(Some)];
                 let ns = prop_oneof![3 => 0u32..8, 1 => 8u32..300];
-                (first, others, ns, xs, any::<u8>(), any::<u8>())
-                    .prop_map(move |(a, mut o, n, x, form, k)| {
+                let nl = n;
+                (first, others, ns, xs, any::<u8>(), any::<u8>(), carry)
+                    .prop_map(move |(a, mut o, n, x, form, k, carry)| {
+                        let a = match carry { Some((js, ds, w)) if x >= 2 => gen::FV::limbs(gen::carry_limbs(x, nl, &js, &ds, w)), _ => a };
                         let mut v = vec![a];
                         v.append(&mut o);
                         Case::P(PCase { ty: ty as u16, tyname: name.clone(), v, n, x, form, k })
